@@ -74,9 +74,14 @@ class CancelOnShutdownExecutor(CanCustomizeBind, Executor):
         Note that there is no guarantee that the cancel will succeed, and only a single
         attempt is made to cancel any future.
         """
+        # Shut the gate before taking our lock: submit() takes them in that order
+        # too (taking the lock first deadlocked against a concurrent submit()).
+        # A submit() already past the gate holds it until its future is tracked,
+        # so every future ever returned is in the snapshot below.
+        if not self._shutdown():
+            return
+
         with self._lock:
-            if not self._shutdown():
-                return
             metrics.EXEC_INPROGRESS.labels(
                 type="cancel_on_shutdown", executor=self._name
             ).dec()
